@@ -1518,6 +1518,12 @@ class FnTranslator:
             return T("char")
         if k in ("strlit", "format"):
             return T("String")
+        if k == "range" and e[1] is not None and e[2] is not None:
+            tl, th = self.ty_of(e[1], env), self.ty_of(e[2], env)
+            t0 = tl or th
+            if (t0 is None or is_nat(t0)) and (tl is None or th is None or same_type(tl, th)):
+                return T("slice", T("usize"))          # lo..hi over usize, iterated: the list lo, lo+1, .., hi-1
+            return None
         if k == "write":
             return T("Result", UNIT, UNIT)
         if k == "bool":
@@ -1662,6 +1668,10 @@ class FnTranslator:
                         return self.ty_of(e[3][0], env)
                     if m == "enumerate" and not e[3]:
                         return T("slice", ("tup", [T("usize"), rt[2][0]]))
+                    if m == "rev" and not e[3]:
+                        return rt
+                    if m == "skip" and len(e[3]) == 1:
+                        return rt
                     if m == "get" and e[3] and e[3][0][0] == "range":
                         return T("Option", T("slice", rt[2][0]))
                 if m == "clone":
@@ -1816,6 +1826,12 @@ class FnTranslator:
             return "%d" % e[1]
         if k == "strlit":
             return "[" + "; ".join("%d" % c for c in str_value(e[1])) + "]"
+        if k == "range" and e[1] is not None and e[2] is not None and self.ty_of(e, env) is not None:
+            lo = self.pure(e[1], env, T("usize"))
+            hi = self.pure(e[2], env, T("usize"))
+            if lo is None or hi is None:
+                return None
+            return "(seq %s (%s%s - %s))" % (lo, "1 + " if e[3] else "", hi, lo)
         if k == "format":
             parts, args = [], list(e[2])
             for kind_, v in parse_format(e[1]):
@@ -2015,6 +2031,13 @@ class FnTranslator:
             if m == "enumerate" and not e[3] and is_list(rt):
                 r0 = self.pure(e[1], env)
                 return None if r0 is None else "(enumerate %s)" % r0
+            if m == "rev" and not e[3] and is_list(rt):
+                r0 = self.pure(e[1], env)
+                return None if r0 is None else "(rev %s)" % r0
+            if m == "skip" and len(e[3]) == 1 and is_list(rt):
+                r0 = self.pure(e[1], env)
+                n0 = self.pure(e[3][0], env, T("usize"))
+                return None if r0 is None or n0 is None else "(skipn %s %s)" % (n0, r0)
             if e[3] and e[3][0][0] == "closure" and len(e[3]) == 1 and len(e[3][0][1]) == 1:
                 cl = e[3][0]
                 r0 = self.pure(e[1], env)
@@ -2621,6 +2644,9 @@ class FnTranslator:
             # if let P = e { A } else { B }  ==  match e { P => A, _ => B }
             els = e[4] if e[4] is not None else ("block", [], None)
             return self.tr(("match", e[2], [(e[1], None, e[3]), (("pwild",), None, els)]), env, k, want)
+        if kind == "range" and e[1] is not None and e[2] is not None and self.ty_of(e, env) is not None:
+            return self.tr(e[1], env, lambda lo: self.tr(e[2], env, lambda hi: k(
+                "(seq %s (%s%s - %s))" % (lo, "1 + " if e[3] else "", hi, lo)), T("usize")), T("usize"))
         if kind in ("range", "strlit"):
             raise Unsupported(kind)
         raise Unsupported("expression kind " + kind)
@@ -3336,6 +3362,18 @@ MODULES = {
         "types": ["SmtString"],
         "consts": ["MAX_CHAR"],
         "functions": [(None, None, "smt_char_as_string"), (None, None, "char_to_smt"), ("SmtString", "Display", "fmt")],
+    },
+    "InclusionGen": {
+        "files": ["regular_expressions.rs", "character_sets.rs", "loop_ranges.rs", "smt_strings.rs", "matcher.rs"],
+        "types": ["CharSet", "CharPartition", "LoopRange", "RE", "BaseRegLan", "SearchResult", "BasePattern"],
+        "mutual": [["RE", "BaseRegLan"]],
+        "consts": ["MAX_CHAR"],
+        "functions": [("CharSet", None, f) for f in ("is_alphabet", "covers")]
+                     + [("LoopRange", None, "is_all")]
+                     + [("BaseRegLan", None, f) for f in ("is_range", "match_char_set", "is_all_chars", "is_full")]
+                     + [("BasePattern", None, "len"), ("BasePattern", None, "make")]
+                     + [(None, None, f) for f in ("base_patterns", "rigid_match_at", "next_rigid_match", "prev_rigid_match",
+                                                  "char_sets_of_pattern", "rigid_prefix_match", "rigid_suffix_match", "flexible_match")],
     },
     "PartitionGen": {
         "files": ["character_sets.rs", "smt_strings.rs", "errors.rs"],
